@@ -524,3 +524,256 @@ Theorem C01_conv_on_core_case_1_3 :
 Proof. exact (@conv_on_core_case_1_3). Qed.
 Print Assumptions C01_conv_on_core_case_1_3.
 
+Require Import WnV.Proofs.Compose2.
+
+(* ==== composition, second part: what each word, sense and synset carries.  Word.senses() = the senses of the entry in document order; Synset.senses() = the declared members order, then the undeclared ones in document order; per sense: examples, counts, adjposition, lexicalized flag and subcategorization frames (as a list, in frame-link order) equal the document; per synset: lexicalized, examples, first definition, ILI (real, or proposed with its ILIDefinition) and lexfile equal the document (ILI/lexfile: when the shared row exists) *)
+Theorem C01_K5a_word_senses :
+  forall (d : R.db) (r : val) (nt : A.normtable) (d' : R.db) (L : val) (w : Wordnet),
+         A.add_lexical_resource d r nt = R.Ok d' ->
+         A.vreq r "lexicons" = R.Ok (VList [L]) ->
+         new_lexicon d L = true ->
+         wf_db d = true ->
+         wf_lex L = true ->
+         wn_lexicon_ids w = [R.next_rowid (R.get_table d "lexicons")] ->
+         wn_default_mode w = false ->
+         Forall2
+           (fun (x : Word) (e : val) =>
+            map sn_id (Word_senses (conv d') x) =
+            map (fun s : val => doc_text (A.vgetk s "id")) (A._local_senses (A._senses e)) /\
+            (forall sn : Sense,
+             In sn (Word_senses (conv d') x) -> In sn (Wordnet_senses (conv d') w None None)))
+           (Wordnet_words (conv d') w None None) (A._local_entries (A._entries L)).
+Proof. exact (@K5a_word_senses). Qed.
+Print Assumptions C01_K5a_word_senses.
+
+Theorem C01_K5a_synset_members :
+  forall (d : R.db) (r : val) (nt : A.normtable) (d' : R.db) (L : val) (w : Wordnet),
+         A.add_lexical_resource d r nt = R.Ok d' ->
+         A.vreq r "lexicons" = R.Ok (VList [L]) ->
+         new_lexicon d L = true ->
+         wf_db d = true ->
+         wf_lex L = true ->
+         wn_lexicon_ids w = [R.next_rowid (R.get_table d "lexicons")] ->
+         wn_default_mode w = false ->
+         Forall2
+           (fun (y : Synset) (ss : val) =>
+            map (fun sn : Sense => (sn_entry_id sn, sn_id sn)) (Synset_senses (conv d') y) =
+            map (fun es : val * val => (sid (fst es), doc_text (A.vgetk (snd es) "id")))
+              (doc_members L ss) /\
+            (forall sn : Sense,
+             In sn (Synset_senses (conv d') y) -> In sn (Wordnet_senses (conv d') w None None)))
+           (Wordnet_synsets (conv d') w None None None) (A._local_synsets (A._synsets L)).
+Proof. exact (@K5a_synset_members). Qed.
+Print Assumptions C01_K5a_synset_members.
+
+Theorem C01_K5b_senses :
+  forall (d : R.db) (r : val) (nt : A.normtable) (d' : R.db) (L : val) (w : Wordnet),
+         A.add_lexical_resource d r nt = R.Ok d' ->
+         A.vreq r "lexicons" = R.Ok (VList [L]) ->
+         new_lexicon d L = true ->
+         wf_db d = true ->
+         wf_lex L = true ->
+         wn_lexicon_ids w = [R.next_rowid (R.get_table d "lexicons")] ->
+         wn_default_mode w = false ->
+         wf_db5 d = true ->
+         wf_lex5 L = true ->
+         Forall2 (fun (sn : Sense) (es : val * val) => sense_report (conv d') L sn (snd es))
+           (Wordnet_senses (conv d') w None None) (doc_senses L).
+Proof. exact (@K5b_senses). Qed.
+Print Assumptions C01_K5b_senses.
+
+Theorem C01_K5c_synsets :
+  forall (d : R.db) (r : val) (nt : A.normtable) (d' : R.db) (L : val) (w : Wordnet),
+         A.add_lexical_resource d r nt = R.Ok d' ->
+         A.vreq r "lexicons" = R.Ok (VList [L]) ->
+         new_lexicon d L = true ->
+         wf_db d = true ->
+         wf_lex L = true ->
+         wn_lexicon_ids w = [R.next_rowid (R.get_table d "lexicons")] ->
+         wn_default_mode w = false ->
+         wf_db5 d = true ->
+         wf_lex5 L = true ->
+         rowids_okb "ilis" d = true ->
+         rowids_okb "lexfiles" d = true ->
+         Forall2 (synset_report (conv d') d') (Wordnet_synsets (conv d') w None None None)
+           (A._local_synsets (A._synsets L)).
+Proof. exact (@K5c_synsets). Qed.
+Print Assumptions C01_K5c_synsets.
+
+Theorem C01_Sense_frames_new :
+  forall (nt : A.normtable) (L : val) (d d' : R.db),
+         A.add_one_lexicon nt L d = R.Ok d' ->
+         vtruthy (A.vgetk L "extends") = false ->
+         wf_db d = true ->
+         wf_lex_facts L ->
+         wf_db5_facts d ->
+         wf_lex5_facts L ->
+         forall w : Wordnet,
+         wn_lexicon_ids w = [R.next_rowid (R.get_table d "lexicons")] ->
+         wn_default_mode w = false ->
+         forall synbhrs : list A.synbhr,
+         A._collect_frames L = R.Ok synbhrs ->
+         forall kx : Z * (Z * val * (Z * val)),
+         In kx
+           (A.enumerate_from (R.next_rowid (R.get_table d "senses"))
+              (sense_items_from (R.next_rowid (R.get_table d "entries"))
+                 (A._local_entries (A._entries L)))) ->
+         Sense_frames (conv d') (mk_Sense w (qOf d kx)) = doc_frames synbhrs (snd (snd (snd kx))).
+Proof. exact (@Sense_frames_new). Qed.
+Print Assumptions C01_Sense_frames_new.
+
+Theorem C01_Synset_ili_proposed :
+  forall (nt : A.normtable) (L : val) (d d' : R.db),
+         A.add_one_lexicon nt L d = R.Ok d' ->
+         wf_db d = true ->
+         wf_lex_facts L ->
+         wf_db5_facts d ->
+         forall (w : Wordnet) (ky : Z * val),
+         In ky
+           (A.enumerate_from (R.next_rowid (R.get_table d "synsets"))
+              (A._local_synsets (A._synsets L))) ->
+         rowids_ok "ilis" d ->
+         A.is_in (A.vgetk (snd ky) "ili") = true ->
+         ss_ili (doc_Synset (conv d') w d' (R.next_rowid (R.get_table d "lexicons")) ky) = None /\
+         (exists i : ILI,
+            Synset_ili (conv d')
+              (doc_Synset (conv d') w d' (R.next_rowid (R.get_table d "lexicons")) ky) =
+            Some i /\
+            ili_id i = None /\
+            ili_status i = s_proposed /\ ili_definition i = doc_ili_definition (snd ky)).
+Proof. exact (@Synset_ili_proposed). Qed.
+Print Assumptions C01_Synset_ili_proposed.
+
+Theorem C01_fk_ok_wf_db5 :
+  forall d : Rel.db, AP.fk_ok d = true -> wf_db5 d = true.
+Proof. exact (@fk_ok_wf_db5). Qed.
+Print Assumptions C01_fk_ok_wf_db5.
+
+Theorem C01_add_one_lexicon_rowids_ok :
+  forall (nt : A.normtable) (L : val) (d d' : Rel.db),
+         A.add_one_lexicon nt L d = R.Ok d' ->
+         (rowids_ok "ilis" d -> rowids_ok "ilis" d') /\
+         (rowids_ok "lexfiles" d -> rowids_ok "lexfiles" d').
+Proof. exact (@add_one_lexicon_rowids_ok). Qed.
+Print Assumptions C01_add_one_lexicon_rowids_ok.
+
+(* ---- one step beyond a single lexicon: an EXTENSION adding a new sense to an entry of its installed base: the base word lists the new sense (linked to the base entry and synset, ranked by its position in the extension entry); the order among base and extension senses is by rank then rowid, NOT base-first (witness) — the property fixes the order within each lexicon only (interpretation point) *)
+Theorem C01_K6_new_sense :
+  forall (nt : A.normtable) (L : val) (d d' : Rel.db) (bid bver : str)
+           (bx : Z) (e : val) (eid : str) (ke i : Z) (s : val) (yid : str)
+           (ss : val) (ky : Z) (E : entry_row) (Yr : synset_row) (w : Wordnet)
+           (x : Word),
+         A.add_one_lexicon nt L d = R.Ok d' ->
+         vtruthy (A.vgetk L "extends") = true ->
+         A.vgetk (A.vgetk L "extends") "id" = VStr bid ->
+         A.vgetk (A.vgetk L "extends") "version" = VStr bver ->
+         A.LEXICON_QUERY d (R.CText bid) (R.CText bver) = R.CInt bx ->
+         In e (A._entries L) ->
+         A._is_external e = true ->
+         A.vgetk e "id" = VStr eid ->
+         A.ENTRY_QUERY d (R.CText eid) (R.CInt bx) = R.CInt ke ->
+         find_by en_rowid ke (t_entries (conv d)) = Some E ->
+         In (i, s) (A.enumerate_from 0 (A._local_senses (A._senses e))) ->
+         A.vgetk s "synset" = VStr yid ->
+         In ss (A._synsets L) ->
+         A._is_external ss = true ->
+         A.vgetk ss "id" = VStr yid ->
+         A.SYNSET_QUERY d (R.CText yid) (R.CInt bx) = R.CInt ky ->
+         find_by sy_rowid ky (t_synsets (conv d)) = Some Yr ->
+         wn_default_mode w = false ->
+         In (R.next_rowid (R.get_table d "lexicons")) (wn_lexicon_ids w) ->
+         wd__id x = ke ->
+         wd_wordnet x = w ->
+         exists (sn : Sense) (sr : sense_row),
+           In sn (Word_senses (conv d') x) /\
+           In sr (t_senses (conv d')) /\
+           sn_id sn = doc_text (A.vgetk s "id") /\
+           sn__id sn = se_rowid sr /\
+           sn_lexid sn = R.next_rowid (R.get_table d "lexicons") /\
+           sn_entry_id sn = en_id E /\
+           sn_synset_id sn = sy_id Yr /\
+           se_entry_rowid sr = ke /\ se_synset_rowid sr = ky /\ se_entry_rank sr = Some i.
+Proof. exact (@K6_new_sense). Qed.
+Print Assumptions C01_K6_new_sense.
+
+Theorem C01_ex6_new_sense_not_last :
+  let T := conv ex6_d' in
+         map (fun x : Word => map sn_id (Word_senses T x)) (Wordnet_words T ex6_w None None) =
+         [[S_ "e1-s1"; S_ "e1-s9"; S_ "e1-s2"]] /\
+         map
+           (fun sr : sense_row =>
+            (se_id sr, se_lexicon_rowid sr, se_entry_rowid sr, se_entry_rank sr))
+           (t_senses T) =
+         [(S_ "e1-s1", 1, 1, Some 0); (S_ "e1-s2", 1, 1, Some 1); (S_ "e1-s9", 2, 1, Some 0)].
+Proof. exact (@ex6_new_sense_not_last). Qed.
+Print Assumptions C01_ex6_new_sense_not_last.
+
+Theorem C01_ex6_extension :
+  let T := conv ex6_d' in
+         map
+           (fun x : Word =>
+            (wd_id x, wd_lexid x,
+             map (fun s : Sense => (sn_id s, sn_lexid s, Sense_examples T s)) (Word_senses T x)))
+           (Wordnet_words T ex6_w None None) =
+         [(S_ "e1", 1,
+           [(S_ "e1-s1", 1, Ok [Some (S_ "base example"); Some (S_ "extension example")]);
+            (S_ "e1-s9", 2, Ok []); (S_ "e1-s2", 1, Ok [])])] /\
+         map
+           (fun y : Synset =>
+            (ss_id y, ss_lexid y, Synset_examples T y, map sn_id (Synset_senses T y)))
+           (Wordnet_synsets T ex6_w None None None) =
+         [(S_ "y1", 1, Ok [Some (S_ "base synset example"); Some (S_ "extension synset example")],
+           [S_ "e1-s1"]); (S_ "y2", 1, Ok [], [S_ "e1-s2"; S_ "e1-s9"])].
+Proof. exact (@ex6_extension). Qed.
+Print Assumptions C01_ex6_extension.
+
+(* ---- non-vacuity: hypotheses and conclusions on a worked example (frames of both kinds, members out of document order, lexfile, two definitions, an existing and a proposed ILI), by evaluation and through the theorems *)
+Theorem C01_ex5_hypotheses :
+  A.add_lexical_resource ex_d ex5_r [] = R.Ok ex5_d' /\
+         A.vreq ex5_r "lexicons" = R.Ok (VList [ex5_L]) /\
+         new_lexicon ex_d ex5_L = true /\
+         wf_db ex_d = true /\
+         wf_lex ex5_L = true /\
+         wf_db5 ex_d = true /\
+         wf_lex5 ex5_L = true /\
+         rowids_okb "ilis" ex_d = true /\
+         rowids_okb "lexfiles" ex_d = true /\
+         Wordnet_init (conv ex5_d') (Some (S_ "zz:2")) None None false [] None true = Ok ex5_w /\
+         wn_lexicon_ids ex5_w = [R.next_rowid (R.get_table ex_d "lexicons")] /\
+         wn_default_mode ex5_w = false /\ AP.fk_ok ex_d = true.
+Proof. exact (@ex5_hypotheses). Qed.
+Print Assumptions C01_ex5_hypotheses.
+
+Theorem C01_ex5_by_theorems :
+  let T := conv ex5_d' in
+         Forall2
+           (fun (x : Word) (e : val) =>
+            map sn_id (Word_senses T x) =
+            map (fun s : val => doc_text (A.vgetk s "id")) (A._local_senses (A._senses e)))
+           (Wordnet_words T ex5_w None None) (A._local_entries (A._entries ex5_L)) /\
+         Forall2
+           (fun (y : Synset) (ss : val) =>
+            map (fun sn : Sense => (sn_entry_id sn, sn_id sn)) (Synset_senses T y) =
+            map (fun es : val * val => (sid (fst es), doc_text (A.vgetk (snd es) "id")))
+              (doc_members ex5_L ss)) (Wordnet_synsets T ex5_w None None None)
+           (A._local_synsets (A._synsets ex5_L)) /\
+         Forall2 (fun (sn : Sense) (es : val * val) => sense_report T ex5_L sn (snd es))
+           (Wordnet_senses T ex5_w None None) (doc_senses ex5_L) /\
+         Forall2 (synset_report T ex5_d') (Wordnet_synsets T ex5_w None None None)
+           (A._local_synsets (A._synsets ex5_L)).
+Proof. exact (@ex5_by_theorems). Qed.
+Print Assumptions C01_ex5_by_theorems.
+
+Theorem C01_ex6_by_theorem :
+  exists (sn : Sense) (sr : sense_row),
+           In sn (Word_senses (conv ex6_d') ex6_x) /\
+           In sr (t_senses (conv ex6_d')) /\
+           sn_id sn = S_ "e1-s9" /\
+           sn__id sn = se_rowid sr /\
+           sn_lexid sn = 2 /\
+           sn_entry_id sn = S_ "e1" /\
+           sn_synset_id sn = S_ "y2" /\
+           se_entry_rowid sr = 1 /\ se_synset_rowid sr = 2 /\ se_entry_rank sr = Some 0.
+Proof. exact (@ex6_by_theorem). Qed.
+Print Assumptions C01_ex6_by_theorem.
+
